@@ -19,10 +19,12 @@ def install(R):
         c = fr.contract
         if c is None or not c.crash:
             return
-        k = sum(1 for e in fr.st.events if e.kind == "fs")
+        k = sum(1 for e in fr.st.events if e.kind == "fs" and e.name != "query")
         sf = fr.sub(spec=True)
         for name, f in eng.eval_clauses(c.crash, sf):
             eng.emit(sf, f"{name}.after_step{k}_{what}", f, kind="crash", line=getattr(node, "lineno", None))
+
+    R.symbols["crash_check"] = crash_check
 
     def fs_step(eng, fr, what, path, node):
         fr.st.events.append(Event("fs", what, [path], {}, getattr(node, "lineno", None)))
@@ -165,8 +167,32 @@ def install(R):
             return z3.BoolVal(lit.endswith(".tmp"))
         return istmp(pv)
 
+    def note_tmp_names(eng, fr):
+        """definitional facts: every name handled so far whose term shows a '.tmp' ending is a temporary name"""
+        seen = []
+        for e in fr.st.events:
+            vals = list(e.args) + list((e.kwargs or {}).values())
+            env = (e.extra or {}).get("env") if isinstance(e.extra, dict) else None
+            if env:
+                vals += list(env.values())
+            for a in vals:
+                if isinstance(a, SV) and a.k in ("str", "V"):
+                    try:
+                        tv = eng.as_V(a)
+                    except Unsupported:
+                        continue
+                    lit = last_literal(tv)
+                    if lit is not None and lit.endswith(".tmp") and not any(z3.eq(tv, s_) for s_ in seen):
+                        seen.append(tv)
+                        fr.st.assume(istmp(tv))
+    R.symbols["note_tmp_names"] = note_tmp_names
+
     def is_tmp(eng, fr, p):
-        return mk_bool(tmp_formula(eng.as_V(p)))
+        pv = eng.as_V(p)
+        f = tmp_formula(pv)
+        if z3.is_true(f):
+            fr.st.assume(istmp(pv))      # definitional: the term shows that the name ends in '.tmp'
+        return mk_bool(f)
     S["IsTmp"] = is_tmp
 
     def crash_inv(eng, fr, fname, obj):
@@ -188,6 +214,27 @@ def install(R):
                         fr.st.assume(istmp(tv))
         return mk_bool(z3.ForAll([q], z3.Implies(z3.Not(istmp(q)), z3.If(q == fv, z3.Or(same, new), same))))
     S["OldOrNewAtomically"] = crash_inv
+
+    def old_or(eng, fr, path, cond):
+        """every real (non-temporary) name looks as at entry, except that `path` may instead already satisfy `cond` (a statement
+        about the current file system, e.g. 'exists, complete and holds the new settings')"""
+        if fr.old is None:
+            raise Unsupported("needs old")
+        q = z3.Const(fresh_name("q"), V)
+        same = R.symbols["same_at"](fr.old.ghost, fr.st.ghost, q)
+        note_tmp_names(eng, fr)
+        return mk_bool(z3.ForAll([q], z3.Implies(z3.Not(istmp(q)), z3.If(q == eng.as_V(path), z3.Or(same, eng.truth(cond, fr)), same))))
+    S["OldOr"] = old_or
+
+    def old_or2(eng, fr, p1, c1, p2, c2):
+        if fr.old is None:
+            raise Unsupported("needs old")
+        q = z3.Const(fresh_name("q"), V)
+        same = R.symbols["same_at"](fr.old.ghost, fr.st.ghost, q)
+        note_tmp_names(eng, fr)
+        body = z3.If(q == eng.as_V(p1), z3.Or(same, eng.truth(c1, fr)), z3.If(q == eng.as_V(p2), z3.Or(same, eng.truth(c2, fr)), same))
+        return mk_bool(z3.ForAll([q], z3.Implies(z3.Not(istmp(q)), body)))
+    S["OldOr2"] = old_or2
 
     def string_lemma(eng, pid):
         """names of crop files (last component from a literal template ending in '.jbdmp' / '.clpkl') never end in '.tmp'"""
@@ -226,4 +273,66 @@ def install(R):
     rd.raises = {"FileNotFoundError": dict(when="not fs_exists(fname)", unchanged=True, iff=True),
                  "EOFError": dict(when="fs_exists(fname) and not fs_complete(fname)", unchanged=True, iff=True)}
     rd.on_raise = [("fs_untouched", "fs_unchanged()")]
+    return R
+
+
+def install_c10(R):
+    """Lemma CrashRecover (C10) over the crash clauses / contracts of grow, missing_results and grow_missing, and the property's metadata."""
+    S = R.spec
+
+    def lemma(eng, pid):
+        from pyvc.state import VC
+        Int, B = z3.IntSort(), z3.BoolSort()
+        RP, BP = z3.Function("ResultPathOf", Int, V), z3.Function("BatchPathOf", Int, V)
+        istmp = z3.Function("istmp", V, B)
+        Fv = z3.Function("FnValue", V, V)
+        fs = {k: (z3.Function(f"ex{k}", V, B), z3.Function(f"ok{k}", V, B), z3.Function(f"ct{k}", V, V)) for k in (0, 1, 2)}
+        nb, v = z3.Ints("nb v")
+        b, p = z3.Ints("b p")
+        q = z3.Const("q", V)
+
+        def same(j, k, x):
+            return z3.And(fs[j][0](x) == fs[k][0](x), z3.Implies(fs[j][0](x), z3.And(fs[j][1](x) == fs[k][1](x), fs[j][2](x) == fs[k][2](x))))
+
+        def good_at(k, b_, p_):
+            ex, ok, ct = fs[k]
+            r, cs = ct(RP(b_)), ct(BP(b_))
+            return z3.And(ex(RP(b_)), ok(RP(b_)), T.slen(r) == T.slen(cs), z3.Implies(z3.And(0 <= p_, p_ < T.slen(cs)), T.sget(r, p_) == Fv(T.sget(cs, p_))))
+
+        def good(k, b_):
+            return z3.ForAll([p], good_at(k, b_, p))
+        inr = z3.And(1 <= b, b <= nb)
+        hyps = [
+            ("path templates: result/batch names are distinct, injective in the batch number and never temporary (theory axioms, lemma TmpNames)",
+             z3.ForAll([b, p], z3.And(RP(b) != BP(p), z3.Implies(RP(b) == RP(p), b == p), z3.Not(istmp(RP(b))), z3.Not(istmp(BP(b)))))),
+            ("sown: batch files 1..nb exist and are complete (Sower.__exit__#files, or the re-sow of the recovery)",
+             z3.ForAll([b], z3.Implies(inr, z3.And(fs[0][0](BP(b)), fs[0][1](BP(b)))))),
+            ("history before the kill: every result file that exists is complete and correct (grow#result_written_in_batch_order, grow#only_this_result, fn deterministic)",
+             z3.ForAll([b], z3.Implies(z3.And(inr, fs[0][0](RP(b))), good(0, b)))),
+            ("grow#crash.result_file_old_or_complete_and_correct (the killed worker was growing batch v)",
+             z3.And(1 <= v, v <= nb, z3.ForAll([q], z3.Implies(z3.Not(istmp(q)), z3.If(q == RP(v), z3.Or(same(0, 1, q), good(1, v)), same(0, 1, q)))))),
+            ("Crop.missing_results#exactly_the_ids_without_a_result_file + Crop.grow_missing#grows_exactly_the_missing + grow#result_written_in_batch_order/only_this_result "
+             "(induction over the grown batches)",
+             z3.ForAll([b], z3.Implies(inr, z3.And(same(1, 2, BP(b)), z3.If(z3.Not(fs[1][0](RP(b))), good(2, b), same(1, 2, RP(b))))))),
+        ]
+        b0, p0 = z3.Ints("b0 p0")
+        goal = z3.Implies(z3.And(1 <= b0, b0 <= nb), good_at(2, b0, p0))
+        return [VC("after_recovery_every_result_file_is_complete_and_correct", "lemmas:CrashRecover", [h for _, h in hyps], goal, kind="lemma", props=[pid],
+                   meta={"hypotheses_from": [nm for nm, _ in hyps]})]
+    R.extra_checks.setdefault("C10", []).append(lemma)
+    R.prop_meta["C10"] = dict(
+        bounded_in_quick="kill injection on the real code: replay/C10.py kills a forked victim (os._exit) at every file-system operation boundary (before/after create, "
+                         "after a partial write prefix, before close, before/after rename, before/after each removal of rmtree, before/after the dataset library write) of "
+                         "sow_combos, grow_missing and reap-and-sync for raw, Runner and Harvester crops (5 settings, batches of 2, engines joblib and h5netcdf), "
+                         "including a second kill during the recovery and growing a half-sown crop without re-sowing; every later reap must refuse or be exact, "
+                         "the documented recovery must reach the direct results, harvested data must survive",
+        not_decided=["whole-history claim 'from every crash state the recovery reaches the uninterrupted result' is decided only as lemma CrashRecover over the per-function "
+                     "crash clauses (proved) plus the bounded kill injection; crash states of sow_combos are proved per Sower call (Sower.__call__/save_batch crash clauses) "
+                     "and composed by the callback rule, not by a crash contract on the core runner",
+                     "shutil.rmtree (delete_all) removal order and the crash states of the dataset libraries (h5netcdf / joblib.dump) are exercised by the bounded harness only",
+                     "Sampler crops (C15) and check_bad have no crash contracts",
+                     "fsync / power-loss semantics: a kill leaves what the process had written (page cache), as in the property's statement"],
+        assumptions=["atomicity granularity: open(create/truncate), each write, close, os.replace, os.remove are atomic steps; os.replace is atomic (POSIX rename)",
+                     "temporary names '<name>.<uuid>.tmp' are invisible to every reader: globs and templates end in '.jbdmp' / '.clpkl' (string lemma real_names_are_not_tmp)"],
+    )
     return R
